@@ -7,6 +7,7 @@ import (
 	"iter"
 	"net/http"
 	"net/http/httptest"
+	"strings"
 	"time"
 
 	"github.com/tigerwill90/fox"
@@ -244,5 +245,288 @@ func runWritersVsHeldReaders(r *Run) {
 				}
 			})
 		}
+	}
+}
+
+// The converse, with a routing tree deeper than any internal threshold: a write transaction held open in every state
+// it can be parked in by its caller - just opened, with uncommitted writes, half way through its own iteration
+// (Txn.Iter), inside an Updates callback, with a snapshot taken - while every read entry point must complete.
+
+type heldWrite2 struct {
+	name string
+	hold func(rt *fox.Router) (release func())
+}
+
+func heldWriters() []heldWrite2 {
+	h := routeHandler("held")
+	inTxn := func(f func(txn *fox.Txn) func()) func(rt *fox.Router) func() {
+		return func(rt *fox.Router) func() {
+			txn := rt.Txn(true)
+			after := f(txn)
+			return func() {
+				if after != nil {
+					after()
+				}
+				txn.Abort()
+			}
+		}
+	}
+	halfIter := func(txn *fox.Txn, prefix bool) func() {
+		seq := txn.Iter().All()
+		if prefix {
+			seq = txn.Iter().Prefix(txn.Iter().Methods(), "/deep")
+		}
+		next, stop := iter.Pull2(seq)
+		next()
+		next()
+		return func() {
+			for {
+				if _, _, ok := next(); !ok {
+					break
+				}
+			}
+			stop()
+		}
+	}
+	parkedUpdates := func(inside func(txn *fox.Txn) func()) func(rt *fox.Router) func() {
+		return func(rt *fox.Router) func() {
+			entered, resume, done := make(chan struct{}), make(chan struct{}), make(chan struct{})
+			go func() {
+				defer close(done)
+				_ = rt.Updates(func(txn *fox.Txn) error {
+					var after func()
+					if inside != nil {
+						after = inside(txn)
+					}
+					close(entered)
+					<-resume
+					if after != nil {
+						after()
+					}
+					return errSentinel // nothing is published
+				})
+			}()
+			<-entered
+			return func() { close(resume); <-done }
+		}
+	}
+	return []heldWrite2{
+		{"Txn(true) just opened", inTxn(func(txn *fox.Txn) func() { return nil })},
+		{"Txn(true) with uncommitted writes", inTxn(func(txn *fox.Txn) func() {
+			txn.Handle(http.MethodGet, "/new", h)
+			txn.Delete(http.MethodGet, "/held/a/b")
+			return nil
+		})},
+		{"Txn(true) half way through its own Iter.All", inTxn(func(txn *fox.Txn) func() { return halfIter(txn, false) })},
+		{"Txn(true) half way through its own Iter.Prefix", inTxn(func(txn *fox.Txn) func() { return halfIter(txn, true) })},
+		{"Txn(true) with a Snapshot taken and written again", inTxn(func(txn *fox.Txn) func() {
+			txn.Handle(http.MethodGet, "/new", h)
+			sn := txn.Snapshot()
+			txn.Handle(http.MethodGet, "/new2", h)
+			return func() { _ = sn.Len() }
+		})},
+		{"Updates callback running", parkedUpdates(nil)},
+		{"Updates callback half way through Iter.All", parkedUpdates(func(txn *fox.Txn) func() { return halfIter(txn, false) })},
+	}
+}
+
+type heldRead2 struct {
+	name string
+	run  func(rt *fox.Router)
+}
+
+func heldReaders() []heldRead2 {
+	serve := func(m, p string) func(rt *fox.Router) {
+		return func(rt *fox.Router) {
+			req := httptest.NewRequest(m, p, nil)
+			rt.ServeHTTP(httptest.NewRecorder(), req)
+		}
+	}
+	all := func(it fox.Iter) {
+		for range it.All() {
+		}
+		for range it.Prefix(it.Methods(), "/deep") {
+		}
+		for range it.Reverse(it.Methods(), "", "/held/a") {
+		}
+	}
+	return []heldRead2{
+		{"ServeHTTP (route)", serve(http.MethodGet, "/held/a")},
+		{"ServeHTTP (deep route)", serve(http.MethodGet, deepPath(30))},
+		{"ServeHTTP (404)", serve(http.MethodGet, "/nope")},
+		{"ServeHTTP (405)", serve(http.MethodPost, "/held/a")},
+		{"ServeHTTP (OPTIONS)", serve(http.MethodOptions, "/held/a")},
+		{"ServeHTTP (ignored trailing slash)", serve(http.MethodGet, "/held/a/")},
+		{"Router.Lookup", func(rt *fox.Router) {
+			if _, cc, _ := rt.Lookup(nil, httptest.NewRequest(http.MethodGet, "/held/a", nil)); cc != nil {
+				cc.Close()
+			}
+		}},
+		{"Router.Reverse / Has / Route / Len / Stats", func(rt *fox.Router) {
+			rt.Reverse(http.MethodGet, "", "/held/a")
+			rt.Has(http.MethodGet, "/held/{x}")
+			rt.Route(http.MethodGet, "/held/{x}")
+			rt.Len()
+			rt.Stats()
+		}},
+		{"Router.Iter All / Prefix / Reverse", func(rt *fox.Router) { all(rt.Iter()) }},
+		{"read-only Txn: reads, Iter, Snapshot", func(rt *fox.Router) {
+			tx := rt.Txn(false)
+			defer tx.Abort()
+			tx.Has(http.MethodGet, "/held/{x}")
+			tx.Reverse(http.MethodGet, "", "/held/a")
+			all(tx.Iter())
+			if sn := tx.Snapshot(); sn != nil {
+				all(sn.Iter())
+			}
+		}},
+		{"View: reads, Iter, Snapshot", func(rt *fox.Router) {
+			_ = rt.View(func(tx *fox.Txn) error {
+				tx.Len()
+				all(tx.Iter())
+				if sn := tx.Snapshot(); sn != nil {
+					sn.Len()
+				}
+				return nil
+			})
+		}},
+	}
+}
+
+func deepPath(n int) string {
+	var sb strings.Builder
+	sb.WriteString("/deep")
+	for i := 0; i < n; i++ {
+		sb.WriteString("/" + string(rune('a'+i%26)))
+	}
+	return sb.String()
+}
+
+func runReadersVsHeldWriters(r *Run) {
+	limit := 3 * time.Second
+	for _, hw := range heldWriters() {
+		for _, hr := range heldReaders() {
+			if r.tooManyViolations() {
+				return
+			}
+			detail := func() map[string]any {
+				return map[string]any{"family": "held-writers", "write": hw.name, "read": hr.name}
+			}
+			r.guard("reader against a held writer", detail, func() {
+				rt, err := fox.New(fox.WithIgnoreTrailingSlash(true), fox.WithNoMethod(true), fox.WithAutoOptions(true))
+				if err != nil {
+					failTool("fox.New: %v", err)
+				}
+				for _, p := range []string{"/held/{x}", "/held/a/b"} {
+					rt.MustHandle(http.MethodGet, p, routeHandler(p))
+				}
+				// a chain of routes, each one level below the previous: the tree gets one node per level
+				for i := 1; i <= 30; i++ {
+					rt.MustHandle(http.MethodGet, deepPath(i), routeHandler("deep"))
+				}
+				release := hw.hold(rt)
+				done := make(chan struct{})
+				go func() {
+					defer close(done)
+					defer func() { recover() }()
+					hr.run(rt)
+				}()
+				select {
+				case <-done:
+					r.addCov("reads_against_held_writes", 1)
+					release()
+				case <-time.After(limit):
+					release()
+					late := false
+					select {
+					case <-done:
+						late = true
+					case <-time.After(limit):
+					}
+					d := detail()
+					d["prescribed"] = "the read completes while the write transaction is held open"
+					d["obtained"] = fmt.Sprintf("not completed after %v; completed once the writer was released: %v", limit, late)
+					r.violation(fmt.Sprintf("held write=%s read=%s: the reader waits for the writer", hw.name, hr.name), d)
+				}
+			})
+		}
+	}
+}
+
+// C04: "after any of these endings the router accepts new write transactions". The one-call writes are transactions
+// of one operation, and user code runs inside them while the writer lock is held (middleware constructors are called
+// at registration). A panic there must end the transaction like any other ending: nothing published, the lock
+// released.
+func runPanicInsideWrites(r *Run) {
+	boom := fox.WithMiddleware(func(next fox.HandlerFunc) fox.HandlerFunc { panic("constructor gives up") })
+	h := routeHandler("p")
+	writes := []struct {
+		name string
+		run  func(rt *fox.Router)
+	}{
+		{"Router.Handle", func(rt *fox.Router) { rt.Handle(http.MethodGet, "/new", h, boom) }},
+		{"Router.Update", func(rt *fox.Router) { rt.Update(http.MethodGet, "/old", h, boom) }},
+		{"Router.MustHandle", func(rt *fox.Router) { rt.MustHandle(http.MethodGet, "/new", h, boom) }},
+		{"Updates: Handle", func(rt *fox.Router) {
+			rt.Updates(func(txn *fox.Txn) error { _, err := txn.Handle(http.MethodGet, "/new", h, boom); return err })
+		}},
+		{"Updates: a write, then Update", func(rt *fox.Router) {
+			rt.Updates(func(txn *fox.Txn) error {
+				txn.Handle(http.MethodGet, "/new2", h)
+				_, err := txn.Update(http.MethodGet, "/old", h, boom)
+				return err
+			})
+		}},
+		{"Updates: Truncate, then Handle", func(rt *fox.Router) {
+			rt.Updates(func(txn *fox.Txn) error {
+				txn.Truncate()
+				_, err := txn.Handle(http.MethodGet, "/new", h, boom)
+				return err
+			})
+		}},
+	}
+	for _, w := range writes {
+		detail := func() map[string]any { return map[string]any{"family": "panic-inside-write", "write": w.name} }
+		r.guard("panic inside a write", detail, func() {
+			rt, err := fox.New()
+			if err != nil {
+				failTool("fox.New: %v", err)
+			}
+			rt.MustHandle(http.MethodGet, "/old", routeHandler("old"))
+			rt.MustHandle("FOO", "/foo", routeHandler("foo"))
+			panicked := false
+			func() {
+				defer func() {
+					if recover() != nil {
+						panicked = true
+					}
+				}()
+				w.run(rt)
+			}()
+			r.addCov("writes_ended_by_a_panic", 1)
+			var problem []string
+			if !panicked {
+				problem = append(problem, "the panic of the user's code was swallowed")
+			}
+			if rt.Len() != 2 || !rt.Has(http.MethodGet, "/old") || !rt.Has("FOO", "/foo") || rt.Has(http.MethodGet, "/new") || rt.Has(http.MethodGet, "/new2") {
+				problem = append(problem, fmt.Sprintf("the interrupted write left something behind: Len=%d", rt.Len()))
+			}
+			done := make(chan error, 1)
+			go func() { _, err := rt.Handle(http.MethodGet, "/after", h); done <- err }()
+			select {
+			case err := <-done:
+				if err != nil {
+					problem = append(problem, "a later write fails: "+err.Error())
+				}
+			case <-time.After(3 * time.Second):
+				problem = append(problem, "a later write never returns: the writer lock is still held")
+			}
+			if len(problem) > 0 {
+				d := detail()
+				d["prescribed"] = "the panic propagates, nothing is published, the router accepts new write transactions"
+				d["obtained"] = problem
+				r.violation(fmt.Sprintf("write=%s interrupted by a panic of user code: %s", w.name, problem[0]), d)
+			}
+		})
 	}
 }
